@@ -130,7 +130,10 @@ struct JSON {
                     break;
                 }
 
+                // Failure: no partial tree, and nothing after this point can be accepted.
                 value.Reset();
+                offset = length;
+                return value;
             }
 
             ++offset;
@@ -167,7 +170,10 @@ struct JSON {
                     break;
                 }
 
+                // Failure: no partial tree, and nothing after this point can be accepted.
                 value.Reset();
+                offset = length;
+                return value;
             }
 
             ++offset;
